@@ -126,5 +126,14 @@ PROPS["C11"] = {
     "trusted_base": API_TRUST,
 }
 
+PROPS["C16"] = {
+    "engine": "text", "properties_file": "Properties/C16.v", "env": {"TZ": "UTC"},
+    "model_files": ["Model/Order.v", "Spec/OrderSpec.v", "Model/Cases16.v"],
+    "technique": "Coq: strict-total-order laws by linear arithmetic over unbounded integers; differential run of Before/After/Equals and the segment guard",
+    "level_text": "Eleven theorems over ALL integers (so all dates, all 1441^2 HH:mm pairs, all instants): trichotomy, transitivity, After = mirrored Before, agreement with the lexicographic order on (y,m,d) / (h,m), Equals = identity of the fields, DateTime.Before = comparison of whole-second timestamps for instants from 1970 on (Go's truncating division modelled with Z.quot), and the time-profile guard accepts a segment iff its end is not before its start. The model of the nested-if comparison code is compared with Date/HHmm/DateTime methods and with SetTimeProfile (recording driver) on every run.",
+    "level_note": "Trusted: Coq kernel; transcription of the comparison methods (Model/Order.v); dates are compared through Year/Month/Day of values built in UTC (their zone-dependent construction is C13's).",
+    "rule": "all adjacent-day pairs around month/year boundaries of 9 years in both directions, random date pairs with perturbations, 12x12 HH:mm boundary pairs (+ as profile segments), random HH:mm pairs, out-of-domain HH:mm, date-time pairs straddling second boundaries by -1001..1001 ms, random near pairs. Non-trivial = the two values differ; distinct = distinct Coq case terms.",
+}
+
 DEV = {"API": {"engine": "api", "properties_file": "Properties/C12.v", "model_files": [], "env": {"TZ": "UTC"}}}
 NOT_YET = {}
